@@ -7,6 +7,8 @@ ROOT=$(pwd)
 # Tie A: regenerate the source-derived Coq files from /repo's current working tree (rewritten only when they change)
 python3 tools/translate_omp.py > /dev/null
 python3 tools/translate_hilbert.py > /dev/null
+python3 tools/translate_specx.py > /dev/null
+python3 tools/translate_starpu.py > /dev/null
 cd coq
 if [ ! -f Makefile ] || [ _CoqProject -nt Makefile ]; then
   coq_makefile -f _CoqProject -o Makefile > /dev/null
